@@ -125,9 +125,9 @@ class FormulaManager(object):
             count = count + 1
 
         name = (base % count)
-        self._fresh_guess = count + 1
         v = self.Symbol(name, typename)
         assert v is not None
+        self._fresh_guess = count + 1
         return v
 
     def get_symbol(self, name: str) -> FNode:
